@@ -7,7 +7,7 @@ from hypothesis import strategies as st
 
 from . import model as M
 
-FLOATS = [1.0, -1.5, 2.0, 2.5, 3.0, 0.5, -2.0, 4.0, 10.0, 0.0]
+FLOATS = [1.0, -1.5, 2.0, 2.5, 3.0, 0.5, -2.0, 4.0, 10.0, 0.0, 0.3, 0.7]
 PARAM_KEYS = ["factor", "addend", "divisor", "value", "w", "p", "q", "path", "seed", "k", "tag"]
 OTHER_KEYS = ["a", "b", "c", "k1", "out", "t_values", "w_key", "ps_a", "seq"]
 ALL_KEYS = PARAM_KEYS + OTHER_KEYS
@@ -30,6 +30,9 @@ def value_for(name: str, bad: float = 0.06):
         good = st.lists(st.sampled_from(FLOATS), min_size=1, max_size=3)
     elif name in ("a", "b", "c", "k1", "out"):
         good = st.one_of(floats, st.sampled_from(["s", "tx"]), st.lists(st.sampled_from(FLOATS), min_size=1, max_size=3))
+    elif name in ("p", "q") and bad > 0:
+        # a context / config value may literally be None (present-with-None is not the same as absent)
+        good = st.one_of(*([floats] * 12), st.none())
     elif name == "opts":
         good = st.fixed_dictionaries({"k": floats})
     else:
@@ -54,9 +57,10 @@ SWEEPABLE = {"source": ["FloatValueDataSource", "FloatValueDataSourceWithDefault
                            "FloatDivideOperation", "VCtxWriteOp"],
              "probe": ["VEchoProbe"]}
 
-EXPRS1 = ["{v}", "2 * {v}", "{v} + 1.0", "-{v}", "abs({v}) + 0.5", "{v} * {v}", "max({v}, 1.0)", "{v} / 2", "float({v})"]
+EXPRS1 = ["{v}", "2 * {v}", "{v} + 1.0", "-{v}", "abs({v}) + 0.5", "{v} * {v}", "max({v}, 1.0)", "{v} / 2", "float({v})",
+          "{v} + (0.1 + 0.2)", "({v} + 0.1) + 0.2", "0.1 + ({v} + 0.2)", "({v} * 0.1) * 3.0", "{v} * (0.1 * 3.0)"]
 EXPRS2 = ["{v} + {u}", "{v} * {u}", "{v} - {u}", "{u} * 2 + {v}", "min({v}, {u})", "{v} if {v} > {u} else {u}",
-          "({v} + {u}) * 0.5", "{v} + {u} + 0.5", "0.5 + ({v} + {u})", "{v} * {u} * 2.0", "2.0 * ({u} * {v})", "({v} + 1.0) + ({u} + 2.0)"]
+          "({v} + {u}) * 0.5", "{v} + {u} + 0.5", "0.5 + ({v} + {u})", "{v} * {u} * 2.0", "2.0 * ({u} * {v})", "({v} + 1.0) + ({u} + 2.0)", "2.0 * {v} + {u} * 3.0", "({v} + 1.0) * (2.0 + {u})", "{v} * {u} + 1.0", "({v} + {u}) * 2.0"]
 
 
 @st.composite
